@@ -828,8 +828,11 @@ fn dbc_writer(seed: u64) -> String {
         let n = 1 + (rng.next() % 5) as usize;
         let picks: Vec<usize> = (0..n).map(|_| (rng.next() % pool.len() as u64) as usize).collect();
         // source file: string block with every pool string once
-        let mut block = vec![0u8]; let mut offs = vec![0u32; pool.len()];
+        // every other source block starts with real text at offset 0 (no leading NUL, as in files written by other tools)
+        let leading_nul = rng.next() % 2 == 0;
+        let mut block = if leading_nul { vec![0u8] } else { Vec::new() }; let mut offs = vec![0u32; pool.len()];
         for (i, s) in pool.iter().enumerate() { if i == 0 { continue; } offs[i] = block.len() as u32; block.extend_from_slice(s.as_bytes()); block.push(0); }
+        if !leading_nul { offs[0] = pool[1].len() as u32; }   // the terminator of the first string serves as the empty string
         let mut bytes = b"WDBC".to_vec();
         bytes.extend_from_slice(&(n as u32).to_le_bytes()); bytes.extend_from_slice(&2u32.to_le_bytes()); bytes.extend_from_slice(&8u32.to_le_bytes()); bytes.extend_from_slice(&(block.len() as u32).to_le_bytes());
         for (i, p) in picks.iter().enumerate() { bytes.extend_from_slice(&(i as u32 + 1).to_le_bytes()); bytes.extend_from_slice(&offs[*p].to_le_bytes()); }
